@@ -25,6 +25,12 @@ class Ctx:
         self._impl_wrapped = set()
         import os
         self.canary = os.environ.get("VERIF_CANARY") == "1"
+        # W11 (degraded weave): every unit's contract as data, per recipe (written to specs/contracts.lock.json on
+        # the good tree); `lost` = recipes whose anchors are gone on this tree and whose functions were woven
+        # under *trusted* contracts instead
+        self.current_recipe = None
+        self.specs = []
+        self.lost = {}
 
     def add_canary(self, fw, unit, pos):
         """vacuity guard: with VERIF_CANARY=1 every unit that has a precondition gets `assert(false)` at its
@@ -105,6 +111,10 @@ def fn_into_verus(ctx, fw, qual, mode="V", ret=None, requires=(), ensures=(), de
     requires: list of text; ensures: list of (text, tags) or text; decreases: text"""
     fn = fw.fn(qual)
     unit = unit or "%s::%s" % (modpath(fw.rel), qual)
+    ctx.specs.append({"recipe": ctx.current_recipe, "kind": "fn", "file": fw.rel, "qual": qual, "mode": mode, "ret": ret,
+                      "requires": [r for r in requires], "ensures": [([c, sorted(set(tags) - {"C12"}), None] if isinstance(c, str) else [c[0], sorted(c[1]), (c[2] if len(c) > 2 else None)]) for c in ensures],
+                      "decreases": decreases, "attrs": list(attrs), "tags": sorted(tags), "unit": unit, "hoisted": hoisted,
+                      "returns": returns, "no_unwind": no_unwind})
     im = fw._impl_of(fn)
     pre_attrs = "".join("#[%s]\n" % a for a in attrs)
     if mode == "T":
@@ -463,6 +473,8 @@ def from_impl_into_verus(ctx, fw, src_ty, dst_ty, spec_expr, tags=(), trusted=Fa
     if len(ims) != 1:
         raise WeaveError("%s: impl From<%s> for %s found %d times" % (fw.rel, src_ty, dst_ty, len(ims)))
     im = ims[0]
+    ctx.specs.append({"recipe": ctx.current_recipe, "kind": "from_impl", "file": fw.rel, "src_ty": src_ty, "dst_ty": dst_ty, "spec_expr": spec_expr,
+                      "tags": sorted(tags), "trusted": trusted, "unit": "%s::<From<%s> for %s>::from" % (modpath(fw.rel), src_ty, dst_ty)})
     fw.insert(im["span"][0], "verus!{\nimpl vstd::std_specs::convert::FromSpecImpl<%s> for %s {\n    open spec fn obeys_from_spec() -> bool { true }\n    open spec fn from_spec(v: %s) -> %s { %s }\n}\n" % (src_ty, dst_ty, src_ty, dst_ty, spec_expr), rule="W3")
     fw.insert(im["span"][1], "\n} // verus!\n", rule="W3")
     fns = [n for n in fw.nodes if n["kind"] == "fn" and fw._impl_of(n) is im]
@@ -519,6 +531,8 @@ def outline(ctx, fw, fnnode, first, last, name, params, args, outs=(), types=(),
         pre = "\nverus!{\n%sfn %s%s(%s) -> (%s: %s)\n" % (pre_attrs, name, generics, params, ret, rty)
         suf = "\n    %s\n}\n} // verus!\n" % tail
     unit = unit or "%s::%s" % (modpath(fw.rel), name)
+    ctx.specs.append({"recipe": ctx.current_recipe, "kind": "segment", "file": fw.rel, "unit": unit, "host": fw.fn_qualname(fnnode), "mode": mode,
+                      "tags": sorted(set(tags) | {t for c in ensures if not isinstance(c, str) for t in c[1]})})
     fw.move(s, e, target, pre=pre, suf=suf, rule="W5", what="segment %s of %s" % (name, fw.fn_qualname(fnnode)), left=call)
     utags = set(tags)
     ftags = utags - {"C12"}
@@ -897,3 +911,28 @@ def strip_prefix_or_self(fw, letnode):
     if not m or m.group(1) != m.group(3):
         raise WeaveError("%s:%d R-std strip_prefix: initialiser is not `X.strip_prefix(LIT).unwrap_or(&X)`" % (fw.rel, fw.line_of(letnode["span"][0])))
     fw.replace(letnode["init_span"][0], letnode["init_span"][1], "crate::verif_prelude::v_strip_prefix_or_self(&%s, %s)" % (m.group(1), m.group(2)), "W9-R-std-strip-prefix")
+
+
+# ----------------------------------------------------------------------------- W11 degraded weave
+def apply_fallback(ctx, W, recipe, specs, reason):
+    """W11: the anchors of recipe `recipe` are gone on this tree.  Its plain functions (found by path only) are
+    woven with the *same contracts* under `external_body`, i.e. as trusted contracts; segments and hoisted
+    nested functions disappear with their host.  Every property tagged on a unit or clause of the recipe is
+    undecided deductively on this tree (the runner falls back to the bounded check for those); the other
+    properties keep their proofs, with the recipe's contracts listed as assumptions of the run."""
+    units, tags = [], set()
+    for sp in specs:
+        units.append(sp["unit"])
+        tags |= set(sp.get("tags", []))
+        for c in sp.get("ensures", []):
+            tags |= set(c[1])
+    for sp in specs:
+        fw = W.file(sp["file"])
+        if sp["kind"] == "from_impl":
+            from_impl_into_verus(ctx, fw, sp["src_ty"], sp["dst_ty"], sp["spec_expr"], tags=sp["tags"], trusted=True)
+        elif sp["kind"] == "fn" and not sp["hoisted"]:
+            plumbing_once(fw)
+            fn_into_verus(ctx, fw, sp["qual"], mode="T", ret=sp["ret"], requires=sp["requires"],
+                          ensures=[(c[0], tuple(c[1]), c[2]) if c[2] else (c[0], tuple(c[1])) for c in sp["ensures"]],
+                          decreases=None, attrs=sp["attrs"], tags=sp["tags"], unit=sp["unit"], returns=sp["returns"], no_unwind=sp["no_unwind"])
+    ctx.lost[recipe] = {"reason": reason, "units": units, "tags": sorted(tags)}
